@@ -125,3 +125,65 @@ Theorem C12_install_tables : forall ls c t,
   (in_levels ls t /\ ~ picked ls c t) \/ In t (new_tables ls c).
 Proof. exact InstallProofs.apply_compaction_tables. Qed.
 Print Assumptions C12_install_tables.
+
+(* ---- the last step: (R) and the shape hypotheses discharged from a tree invariant, over all
+   histories (normal mode, sequential, no drop prefixes).  Proofs: B/TreeInvProofs.v,
+   B/TreeStepProofs.v.
+   TreeInv d = no immutable memtable between labels, at least one level, the C14 structure
+   (db_ok), distinct table ids, distinct key@version, Mono (the memtable holds newer versions
+   than every level, level i newer than level j for i < j) and L0Inv (level 0 = A ++ B, A sorted by
+   smallest key = what the last L0->L0 compaction left, B = the tables flushed since, in age
+   order, each newer than all of A).  SysInv s = the C11 invariant (nextTxnTs above every stored
+   version, no pending write carries a version) + TreeInv (s_db s).
+   step_tree (B/SysTree.v) = Sys.step_strict + three more decidable label checks (fresh id for a
+   flushed table also when the id is 0; c_next < number of levels; compact_extra_check = table
+   breaks only between different user keys, contiguous Lmax->Lmax pick). *)
+From Verif Require Import SysReopen SysTree.
+From Verif Require ReopenTsProofs TreeInvProofs TreeStepProofs.
+Import TreeInvProofs TreeStepProofs.
+
+(* (R): a marker dropped for lack of overlap hides nothing outside the compaction *)
+Theorem C12_R_from_tree_invariant : forall d c,
+  TreeInv d -> pick_check (l_levels d) c = 0 -> c_drop c = [] ->
+  forall e, In e (concat (compaction_inputs (l_levels d) c)) ->
+  compaction_overlap (l_levels d) c = false ->
+  forall o, In o (outside d c) -> e_key o = e_key e -> e_ver e < e_ver o.
+Proof. exact TreeInvProofs.R_holds. Qed.
+Print Assumptions C12_R_from_tree_invariant.
+
+(* the invariant is kept by every label *)
+Theorem C12_tree_invariant_step : forall s o s',
+  SysInv s -> op_plain o -> step_tree s o = Ok s' -> SysInv s'.
+Proof. exact TreeStepProofs.step_tree_preserves. Qed.
+Print Assumptions C12_tree_invariant_step.
+
+(* one compaction label: every Get at ts >= its discard timestamp is unchanged, at the
+   compaction's wall-clock time and at any later one; no shape hypothesis is left *)
+Theorem C12_compaction_step_preserves_reads : forall s c out s',
+  SysInv s -> c_drop c = [] -> step_tree s (Compact c out) = Ok s' ->
+  forall k ts now', c_discard c <= ts -> c_now c <= now' ->
+  vis_of now' (db_get (s_db s') k ts) = vis_of now' (db_get (s_db s) k ts).
+Proof. exact TreeStepProofs.compaction_step_preserves_reads. Qed.
+Print Assumptions C12_compaction_step_preserves_reads.
+
+Theorem C12_flush_step_preserves_reads : forall s id s',
+  SysInv s -> step_tree s (Flush id) = Ok s' ->
+  forall k ts, db_get (s_db s') k ts = db_get (s_db s) k ts.
+Proof. exact TreeStepProofs.flush_step_preserves_reads. Qed.
+Print Assumptions C12_flush_step_preserves_reads.
+
+(* all histories: the invariant holds after every accepted prefix, and the next flush or
+   compaction label changes no read at or above its discard timestamp *)
+Theorem C12_all_histories : forall detect nkeep nlevels next pre o s',
+  (0 < nlevels)%nat -> Forall op_plain pre -> op_plain o ->
+  let s := snd (exec_tree (init_sys false detect nkeep nlevels next) pre 0) in
+  step_tree s o = Ok s' ->
+  SysInv s /\ SysInv s' /\
+  (forall id, o = Flush id -> forall k ts, db_get (s_db s') k ts = db_get (s_db s) k ts) /\
+  (forall c out, o = Compact c out -> forall k ts now', c_discard c <= ts -> c_now c <= now' ->
+     vis_of now' (db_get (s_db s') k ts) = vis_of now' (db_get (s_db s) k ts)).
+Proof. exact TreeStepProofs.all_histories. Qed.
+Print Assumptions C12_all_histories.
+Example C12_all_histories_ex :
+  fst (exec_tree (init_sys false false 1 2 1) ex_history 0) = None /\ Forall op_plain ex_history.
+Proof. exact TreeStepProofs.ex_history_accepted. Qed.
